@@ -48,6 +48,12 @@ CHECKS = {
  "C14": dict(engine="hist+loom", cat="model_checking", tech="explicit-state BFS over arrival sequences on the real JoinRateLimiter / validation::RateLimiter / Engine (rebuild-by-replay, token-bucket reference bounded by harness-measured elapsed time) + loom exploration of the re-bound real rate_limit.rs",
    text="All arrival sequences to depth 8 (thorough 12) over 9 addresses sharing /64, /48, /32, /24, /16 prefixes x 5 limiter configurations, check_ip over 4 IPs x 4 configs, Engine global/keyed consumption, timed histories with one real sleep (window roll-over). Clauses: per-prefix and global caps, burst+refill bound with refill bounded by measured elapsed time, key independence, a denied attempt never increases a budget (one-step differential). Loom: 16 bodies of 2-3 threads on one /64 (cap 1 and 2) and on distinct /64s of one /48. Right level: histories and schedules are the quantifiers.",
    note="refill is bounded by the elapsed time measured by the harness around the whole history; replays slow enough for refill to exceed 0.25 token are repeated.", ref="3/C14"),
+ "C10": dict(engine="hist", cat="model_checking", tech="explicit-state BFS over report / statistics / anchor / removal histories on the real EigenTrustEngine (rebuild-by-replay, compute after every operation), plus a complete parametrised family around the n>100 and n>500 iteration-count thresholds",
+   text="92-operation alphabet (13 statistic updates per node incl. amounts 2^40, 32 pairwise ratings incl. self-ratings, anchor add/remove, node removal) on nodes {A,B,C,P} to depth 3 (thorough 4), a smaller alphabet to depth 4 (5); bases of n in {1,2,3,100,101,500,501,600} x 6 shapes x 3 anchor settings x every one-operation extension per node class. Clauses: finite, range, sum, equal-histories-equal-scores (merge callback), query, monotonicity of success/failure, severity of corrupted/violation vs plain failure, completes-without-fallback. Runs on a paused clock so the 2 s fallback can only fire when the computation is really stuck. Right level: histories are the quantifier.",
+   note="monotonicity judged for update_node_stats reports on peers already part of the computation; comparison margins below 1e-3 must reproduce on five fresh engines (the subject's 1e-4 stopping test can flip with HashMap order).", ref="3/C10"),
+ "C11": dict(engine="inputs", cat="exploration", tech="exhaustive enumeration of all small directed trust graphs (self-loops allowed) with a closed Sybil set, one representative per orbit of class-internal permutations, plus complete parametrised families up to 1000 Sybils / 50 anchors",
+   text="All directed graphs on a in {1,2} anchors, h in {0,1,2} honest, s in {1,2,3} Sybils with |V|<=5 (thorough 6) and no edge into the Sybil set from outside (4.3 M graphs, 0.97 M orbit representatives), each built on a fresh real engine; families s in {1..1000} x {self-loops, chain, star, clique, clique+self} x a in {1,2,10,50} x honest graphs x statistics none/equal. Clauses: Sybil share bound (0.1 % up to 100 nodes, population share / 7 above), anchor floor. Right level: the property quantifies over trust graphs; the small ones are enumerated completely.",
+   note="equal statistics variant on |V|<=4 in quick; unit weights.", ref="3/C11"),
  "C06": dict(engine="crash", cat="fault_enumeration", tech="exhaustive crash-point and torn-write enumeration over operation histories of the real PersistentStateManager, reference-model oracle, second crash/restart cycle",
    text="Every history over {upsert, delete, batch(2), checkpoint} up to the tier length (quick 4, thorough 5) is executed on the real manager under several flush/rotation/clock configurations; every instrumented step of write/rotate/checkpoint inside the last operation and every byte-prefix of every append is a crash image; each image is reopened by a fresh manager and compared with the prefix-closed reference model; from every recovered state every one-operation extension plus clean restart is run and transaction ids inspected. Right level: the property quantifies over crash points and histories.",
    note="crash model = process death (written bytes survive in order); virtual wall clock through the timestamp hook; batch = one operation.", ref="3/C06"),
